@@ -111,11 +111,58 @@ theorem esc_members (fuel : Nat) (ih : Esc fuel) :
 
 theorem within_zero_mono {k : Nat} {r : Res} (h : Within 0 r) : Within k r := within_mono h (Nat.zero_le k)
 
+theorem divert_max_cases (a b : Divert) : a.max b = a ∨ a.max b = b := by
+  unfold Divert.max; split <;> simp
+
+theorem within_finishPoll {k : Nat} (prev : Nat) (s2 : St) (r t : Res) (hr : Within k r) (ht : Within k t) :
+    Within k (finishPoll prev s2 r t).2 := by
+  unfold finishPoll
+  cases t with
+  | outOfFuel => cases r <;> trivial
+  | continue_ => cases r <;> simpa using hr
+  | break_ d =>
+    cases r with
+    | continue_ => simpa using ht
+    | outOfFuel => trivial
+    | break_ m =>
+      simp only
+      rcases divert_max_cases m d with h | h <;> rw [h] <;> assumption
+
+theorem within_pollWith (run : St → List Item → St × Res)
+    (hrun : ∀ s l, Within (loops s.stack) (run s l).2) (s1 : St) (r : Res)
+    (hr : Within (loops s1.stack) r) : Within (loops s1.stack) (pollWith run s1 r).2 := by
+  unfold pollWith
+  cases r with
+  | outOfFuel => trivial
+  | continue_ =>
+    simp only
+    cases s1.trapDue with
+    | none => trivial
+    | some body =>
+      simp only
+      have h2 := hrun ({ s1 with pending := false }.push .trap) body
+      simp only [push_stack, loops_trap] at h2
+      exact within_finishPoll _ _ _ _ hr (within_zero_mono h2)
+  | break_ d =>
+    simp only
+    cases s1.trapDue with
+    | none => exact hr
+    | some body =>
+      simp only
+      have h2 := hrun ({ s1 with pending := false }.push .trap) body
+      simp only [push_stack, loops_trap] at h2
+      exact within_finishPoll _ _ _ _ hr (within_zero_mono h2)
+
 theorem esc_cmds (fuel : Nat) (ih : Esc fuel) : ∀ s cs, Within (loops s.stack) (execCommands (fuel+1) s cs).2 := by
   intro s cs
   match cs with
   | [] => simp [execCommands]
-  | [c] => simp only [execCommands]; exact ih.cmd s c
+  | [c] =>
+    simp only [execCommands]
+    have b1 := (bal fuel).cmd s c
+    have h1 := ih.cmd s c
+    rw [← b1] at h1 ⊢
+    exact within_pollWith _ (fun s l => ih.list s l) _ _ h1
   | c :: d :: t =>
     simp only [execCommands]
     have h1 := ih.members s.enterJc (c :: d :: t) 0
@@ -274,6 +321,8 @@ theorem esc_cmd (fuel : Nat) (ih : Esc fuel) : ∀ s c, Within (loops s.stack) (
   | redirErr k => simp only [execCmd]; cases k <;> first | trivial | exact within_applyErrexit _ _
   | specialErr w st => simp only [execCmd]; exact within_finishSimple _ _ _ (by split <;> trivial)
   | trapExit body => simp only [execCmd]; exact within_finishSimple _ _ _ trivial
+  | trapSig body => simp only [execCmd]; exact within_finishSimple _ _ _ trivial
+  | raise n => simp only [execCmd]; exact within_finishSimple _ _ _ trivial
   | group body => simp only [execCmd]; exact ih.list s body
   | subshell body =>
     simp only [execCmd]
